@@ -706,6 +706,10 @@ impl World {
     }
 
     fn final_checks(&mut self) {
+        let deep = self.bb.borrow().deep_payloads;
+        if deep > 0 {
+            *self.stats.probes.entry("payload-at-depth-limit").or_insert(0) += deep;
+        }
         // Every task must have completed.
         let bt = self.broker_task;
         if self.exec.state(bt) != TaskState::Done {
@@ -815,7 +819,9 @@ impl World {
                         });
                     let v = Violation::new(
                         "conn.closed-by-conversion-error",
-                        &[Prop::C11],
+                        // Without an ill-formed payload in flight the converter refused a
+                        // well-formed one: that is also evidence against C12.
+                        if garbage_in_flight { &[Prop::C11][..] } else { &[Prop::C11, Prop::C12][..] },
                         format!(
                             "Connection::run of actor{i} (1.{}, abuser={}) ended with {e}; {}",
                             a.version.minor(),
